@@ -679,7 +679,11 @@ class Interp:
                     st.ctx.ranges[a] = (Fr(lo), Fr(hi))
             return Num(p, ty.get('n', 'usize'))
         if 'promoted' in c:
-            return self.eval_promoted(st, frame, c['promoted'])
+            try:
+                return self.eval_promoted(st, frame, c['promoted'])
+            except InterpError:
+                # promoted constants that need calls (format arguments of assert messages, ...) carry no analysed value
+                return Opaque(ty, 'promoted')
         val = c.get('val')
         return self.json_const(st, val, ty, c.get('name'))
 
@@ -765,6 +769,24 @@ class Interp:
                 elif t['k'] == 'goto':
                     sub.bb = t['target']
                 elif t['k'] == 'assert':
+                    sub.bb = t['target']
+                elif t['k'] == 'call' and 'def' in t['callee']:
+                    # const fn calls inside a promoted constant: only straight-line library models are evaluated
+                    from .models import norm
+                    cal = t['callee']
+                    cands = [c['path'] for c in (cal.get('resolved'),) if c] + [cal['def']]
+                    m = None
+                    for pth in cands:
+                        m = self.models.get(norm(pth))
+                        if m is not None:
+                            break
+                    if m is None:
+                        raise InterpError('unsupported call in promoted: %s' % cal['def'])
+                    args = [self.operand(st, sub, a) for a in t['args']]
+                    out = m(self, st, sub, t, args, cal.get('args', []))
+                    if isinstance(out, tuple):
+                        raise InterpError('forking model in promoted')
+                    self.write_place(st, sub, t['dest'], out)
                     sub.bb = t['target']
                 else:
                     raise InterpError('unsupported terminator in promoted: %s' % t['k'])
@@ -1226,52 +1248,67 @@ class Interp:
             cont, k = self.resolve(st, fr, places[n])
             cur[n] = st.ctx.rng(cont[k].term)
         depth = len(st.frames) - 1
+        init = dict(cur)
         self.fixpoint_depth += 1
+
+        def probe(ranges):
+            s2 = st.fork()
+            f2 = s2.frames[depth]
+            sym_of = self.apply_havoc(s2, f2, head, places, ranges)
+            f2.bb = head
+            f2.entered_loops.add(head)
+            s2.probe = (depth, head, frozenset(cfg.loops[head]))
+            s2.obligations = []
+            outs = self.run(s2)
+            backs = [o for o in outs if o.status == 'loopback' and len(o.state.frames) > depth and o.state.frames[depth].fn is fr.fn]
+            post = {}
+            for o in backs:
+                fo = o.state.frames[depth]
+                for n in idx:
+                    try:
+                        v = self.read_place(o.state, fo, places[n])
+                    except InterpError:
+                        continue
+                    if not isinstance(v, Num):
+                        continue
+                    lo, hi = o.ctx.rng(v.term)
+                    if n in post:
+                        post[n] = (min(lo, post[n][0]), max(hi, post[n][1]))
+                    else:
+                        post[n] = (lo, hi)
+            return sym_of, backs, post
         try:
-            for rounds in range(6):
-                s2 = st.fork()
-                f2 = s2.frames[depth]
-                sym_of = self.apply_havoc(s2, f2, head, places, cur)
-                f2.bb = head
-                f2.entered_loops.add(head)
-                s2.probe = (depth, head, frozenset(cfg.loops[head]))
-                s2.obligations = []
-                saved_stats = dict(self.stats)
+            widened = False
+            for rounds in range(7):
                 try:
-                    outs = self.run(s2)
+                    sym_of, backs, post = probe(cur)
                 except InterpError:
                     return None
-                finally:
-                    pass
                 new = dict(cur)
                 stable = True
-                for o in outs:
-                    if o.status != 'loopback' or len(o.state.frames) <= depth:
-                        continue
-                    fo = o.state.frames[depth]
-                    if fo.fn is not fr.fn:
-                        continue
-                    for n in idx:
-                        try:
-                            v = self.read_place(o.state, fo, places[n])
-                        except InterpError:
-                            continue
-                        if not isinstance(v, Num):
-                            continue
-                        lo, hi = o.ctx.rng(v.term)
-                        olo, ohi = new[n]
-                        nlo, nhi = min(lo, olo), max(hi, ohi)
-                        if (nlo, nhi) != (olo, ohi):
-                            stable = False
-                            if rounds >= 3:
-                                cont, k = self.resolve(st, fr, places[n])
-                                tlo, thi = INT_RANGES[cont[k].ty]
-                                nlo = Fr(tlo) if nlo < olo else nlo
-                                nhi = Fr(thi) if nhi > ohi else nhi
-                            new[n] = (nlo, nhi)
+                for n, (lo, hi) in post.items():
+                    olo, ohi = new[n]
+                    nlo, nhi = min(lo, olo), max(hi, ohi)
+                    if (nlo, nhi) != (olo, ohi):
+                        stable = False
+                        if rounds >= 3:
+                            cont, k = self.resolve(st, fr, places[n])
+                            tlo, thi = INT_RANGES[cont[k].ty]
+                            nlo = Fr(tlo) if nlo < olo else nlo
+                            nhi = Fr(thi) if nhi > ohi else nhi
+                            widened = True
+                        new[n] = (nlo, nhi)
                 cur = new
                 if stable:
-                    backs = [o for o in outs if o.status == 'loopback' and len(o.state.frames) > depth and o.state.frames[depth].fn is fr.fn]
+                    if widened:
+                        # narrowing: one descending step from the widened fixpoint, kept only if it is inductive
+                        cand = {n: (min(init[n][0], post[n][0]), max(init[n][1], post[n][1])) if n in post else cur[n] for n in cur}
+                        try:
+                            sym2, backs2, post2 = probe(cand)
+                            if all(n not in post2 or (post2[n][0] >= cand[n][0] and post2[n][1] <= cand[n][1]) for n in cand):
+                                cur, sym_of, backs = cand, sym2, backs2
+                        except InterpError:
+                            pass
                     info = {'ranges': cur, 'no_iteration': not backs, 'reductions': []}
                     if backs:
                         info['reductions'] = self.recognise_reductions(st, fr, places, idx, sym_of, backs, depth)
@@ -1472,11 +1509,14 @@ class Interp:
                 return nv
             nv.term = ('sym', st.fresh_name(tag))
             if v.len is not None:
-                nv.len = st.ctx.sym_range(st.fresh_name(tag + '.len'), 0, 2 ** 32, integer=True)
+                capc = v.cap.const_value() if isinstance(v.cap, Poly) else None
+                # a heapless container never holds more than its capacity (type invariant of the container)
+                nv.len = st.ctx.sym_range(st.fresh_name(tag + '.len'), 0, capc if (capc is not None and v.kind == 'vec') else 2 ** 32, integer=True)
             return nv
         return v
 
     def switch(self, st, fr, t):
+        st.ctx.origin = fr.fn['path']
         d = self.operand(st, fr, t['discr'])
         arms = [(int(a[0]), a[1]) for a in t['arms']]
         other = t['otherwise']
@@ -1609,6 +1649,7 @@ class Interp:
         return None
 
     def do_assert(self, st, fr, t):
+        st.ctx.origin = fr.fn['path']
         cond = self.operand(st, fr, t['cond'])
         expected = t['expected']
         b = cond.b if isinstance(cond, BoolV) else None
@@ -1743,6 +1784,7 @@ class Interp:
         return fr.body['locals'][place['l']]['ty']
 
     def finish_model(self, st, fr, t, out):
+        st.ctx.origin = fr.fn['path']
         """out: a value | ('panic', msg) | ('fork', [(B or None, value_or_thunk)])"""
         if isinstance(out, tuple) and out and out[0] == 'panic':
             key = 'panic@%s#%s' % (fr.fn['path'], self.site_ordinal(fr, fr.bb))
